@@ -1,3 +1,5 @@
+//go:build g_heavy
+
 package worlds
 
 // filekit: shared parts of world W-FILE (C01, C02, C07): procedural content,
